@@ -184,6 +184,36 @@ def fam_predicate(res, s, v, spec, what, n=None, expand=False):
             diffs.append(show(x, s.names))
         return x
     map_terms(t, scan_lt)
+    rounded = []
+
+    def scan_rounded(x):
+        if x[0] in ('b', 'call') and (x[0] == 'call' and x[1] == 'anyLessThan' or x[0] == 'b' and x[1] in ('<', '>', '<=', '>=', '==', '!=')):
+            ops_ = x[2] if x[0] == 'call' else (x[2], x[3])
+            for o in ops_:
+                cs = calls_in(o)
+                halves = []
+                map_terms(o, lambda y: (halves.append(y), y)[1] if (y[0] == 'b' and y[1] == '/') else y)
+                if 'center' in cs or halves:
+                    rounded.append(show(x, s.names))
+                else:
+                    arith = []
+                    map_terms(all_conv(o), lambda y: (arith.append(y), y)[1] if (y[0] == 'b' and y[1] in ('+', '-', '*')) or (
+                        y[0] == 'mcall' and y[1] == 'size') else y)
+                    if arith and not ((is_difference(o) and any(is_zero(q) for q in ops_))):
+                        arithmetic.append(show(x, s.names))
+        return x
+    arithmetic = []
+    map_terms(t, scan_rounded)
+    if arithmetic and not rounded:
+        res.bad(R1, '%s decides on sums / differences of the bounds (`%s`) instead of comparing the bounds: floating-point sums round '
+                    '(boxes that share exactly a face are mis-decided) and for an empty box (+inf, -inf) they are inf - inf = NaN, '
+                    'which makes every comparison false; integer sums can overflow' % (what, arithmetic[0][:160]), 'arithmetic-operand')
+        return
+    if rounded:
+        res.bad(R1, '%s decides on quantities obtained by halving (`%s`): center() is (lower+upper)/2, which truncates for integer '
+                    'element types (and rounds for floating point), so boxes whose bound sums are odd are mis-decided on the boundary; '
+                    'a closedness predicate must compare the bounds themselves' % (what, rounded[0][:140]), 'rounded-operand')
+        return
     if diffs:
         res.bad(R1, '%s tests the sign of a difference of the bounds (`%s`) instead of comparing the bounds: for integer bounds more '
                     'than 2^31 apart the subtraction overflows - in particular for the default empty box (INT_MAX, INT_MIN) - so the '
@@ -686,6 +716,15 @@ def fam_range_arith(res, s, v, op, tu=None):
         return
     bad = False
     for slot, fld in ((t[2][0], LO), (t[2][1], HI)):
+        mm = minmax_call(slot)
+        if mm is not None:
+            both = {poly(('b', op, M(('p', ri), b_), ('p', si)), names=names) for b_ in (LO, HI)}
+            if {poly(all_conv(x), names=names) for x in mm[1]} == both:
+                res.bad(R3, 'operator%s(range): the %s bound of the result is `%s`: the two transformed bounds are re-ordered with '
+                            'min/max, so the empty range (lower > upper, e.g. (+inf,-inf)) becomes a non-empty one (the whole line) '
+                            'instead of staying empty; the definition transforms lower and upper separately' % (op, fld, show(slot, names)),
+                        'arith-reordered')
+                return
         e = ('b', op, M(('p', ri), fld), ('p', si))
         a = all_conv(slot)
         if unknowns(a):
@@ -1307,7 +1346,7 @@ def classify(tu, f, s, file):
         dis = ('b', '||', L(M(a, HI), M(b, LO)), L(M(b, HI), M(a, LO)))
         if name == 'disjoint' and k == ['range', 'range']:
             return 'predicate', lambda res, s, v: fam_predicate(res, s, v, dis, 'disjoint', n, expand=True)
-        if name == 'touchingOrOverlapping' and k == ['range', 'range'] and isinstance(n, int):
+        if name == 'touchingOrOverlapping' and k == ['range', 'range']:
             return 'predicate', lambda res, s, v: fam_predicate(res, s, v, ('u', '!', dis), 'touchingOrOverlapping', n, expand=True)
         if name == 'intersectionOf' and k == ['range', 'range']:
             return 'intersectionOf', fam_intersection
